@@ -363,11 +363,11 @@ type outcome struct {
 	Keys       []string // request keys delivered during the history
 	Crashed    bool
 	CrashDesc  string
-	CrashOp    string // history operation in progress at the crash
+	CrashOp    string   // history operation in progress at the crash
 	Unanswered []string // "key@epoch" of requests the server received and left unanswered
 	Epochs     int      // process instances started after a crash
 	Restarts   int      // graceful restarts
-	Stream     string // accepted records, for evidence
+	Stream     string   // accepted records, for evidence
 	Signature  uint64
 	OpsApplied int
 }
@@ -773,14 +773,14 @@ type counters struct {
 }
 
 type driver struct {
-	t     *testing.T
-	run   *report.Run
-	part  string
-	b     bounds
-	cnt   counters
-	sigMu sync.Mutex
-	sigs  map[uint64]bool
-	start time.Time
+	t      *testing.T
+	run    *report.Run
+	part   string
+	b      bounds
+	cnt    counters
+	sigMu  sync.Mutex
+	sigs   map[uint64]bool
+	start  time.Time
 	capped atomic.Bool
 }
 
@@ -794,8 +794,11 @@ func (d *driver) overBudget() bool {
 
 func (d *driver) one(sc scenario) outcome {
 	out, p := bubble(d.t, sc)
-	d.cnt.execs.Add(1)
+	n := d.cnt.execs.Add(1)
 	d.cnt.ops.Add(int64(out.OpsApplied))
+	if n == 2 || n == 40 || n%9973 == 0 {
+		d.run.Sample(map[string]any{"history": sc.Ops, "faults": sc.F.String(), "crashed": out.CrashDesc, "during": out.CrashOp, "accepted_stream": out.Stream, "violations": len(out.Viols)})
+	}
 	if p != "" {
 		out.Viols = append(out.Viols, viol{Kind: "panic", Site: "history", Detail: p})
 	}
@@ -1041,7 +1044,8 @@ func sweep(run *report.Run) {
 	}
 	wg.Wait()
 	run.AddPart(report.Part{Name: part, Engine: "D:complete-sweep", Bound: fmt.Sprintf("%d boundary values (2^k, 2^k+-1, k=0..64) x same for the other direction x {Stop, Interim}", len(vals)),
-		Executions: n, States: big, Exhaustive: true, Note: fmt.Sprintf("%d sends, %d with a counter above 32 bits", n, big)})
+		Exhaustive: true, Note: fmt.Sprintf("%d sends, %d with a counter above 32 bits (counted as evaluations / distinct_nontrivial)", n, big)})
+	run.AddEvals(n, big)
 	fmt.Printf("part %s: %d sends (%d with a value above 2^32-1)\n", part, n, big)
 }
 
